@@ -111,7 +111,7 @@ def main(prop, tier, seed, args):
         if not cases:
             continue
         workname = "%s-%s-%d" % (prop, tier, gi)
-        work = kanirun.prepare_crate(g.crate, workname, cases)
+        work = kanirun.prepare_crate(g.crate, workname, cases, **({'prelude': g.prelude} if getattr(g, 'prelude', None) else {}))
         log = os.path.join(BUILD, "logs", workname + ".log")
         results, wall, build_ok, tail, rc = kanirun.run_kani(work, g.variant, cases, log, plan.harness_timeout,
                                                              extra_rustflags=g.rustflags, features=g.features,
